@@ -20,6 +20,11 @@ package redisemu
 //@ ghost gHashOptions bitflags
 // C02: MSETNX found one of its keys present
 //@ ghost gSawExisting bool
+// C11: what the command asked the wait table to wake when it released the lock (number of waiters, key)
+//@ ghost gWakeRequested int
+//@ ghost gWakeKey string
+// the key a command will wake is fixed when its unblockKey is built
+//@ immutable unblockKey.keyName
 // C05: ghost sets used to state the set algebra: the accumulated operand set (union of the
 // operands processed so far), its value before the current operand, the result's members
 // when the current operand was reached, and the empty set
@@ -95,11 +100,14 @@ package redisemu
 //@ ensures lockMode(dsc)
 
 //@ func dataStoreCommand.unlockAndUnblock
-//@ prop C08 C16
+//@ prop C08 C16 C11
+//@ ghostentry gWakeRequested = uk.elements
+//@ ghostentry gWakeKey = uk.keyName
 //@ requires dsc != nil && dsc.ds != nil && dsc.ds.waitingClients != nil && uk != nil && dsc.id != 0
 //@ requires [C08,C16] isheld: held
-//@ modifies ghost.held waitTable objectWaitList wakeSignal signalListTuple unblockKey
+//@ modifies ghost.held ghost.gWakeRequested ghost.gWakeKey waitTable objectWaitList wakeSignal signalListTuple
 //@ ensures lockMode(dsc)
+//@ ensures [C11] requested: gWakeRequested == uk.elements && gWakeKey == uk.keyName
 
 //@ func dataStore.unblockListUnlocked
 //@ trusted wakes waiters of a key (C11); touches only the wait table
